@@ -116,6 +116,7 @@ def run(ctx):
                     dstp = B.peel(dstp.a[1][0])
                 is_dst = (dstp.op == "param" and dstp.a[1] == "dst") or (entry[0]["mode"] == "map-closure" and dstp.op in ("field", "deref", "param") and "dst" in show(dstp, 4))
                 ctx.ob("E5.equation", fk + "/dst", is_dst, "per-entry hash uses the caller's tag unmodified: %s" % show(dstp, 3), where=where(f))
+            F.check_entry_pair_form(ctx, "E5.equation", P, fk, entry)
             for e in entry:
                 ctx.ob("E4.loop", fk + "/every-entry", e["every"], "every list entry yields its own (hash_to_point(msg,dst), pk) pairing input or an error (%s)" % e["mode"], where=where(e["fn"], e["bb"]))
             if not entry:
